@@ -18,7 +18,8 @@ PER_PROG = 24
 
 def expr_cases(env, tier, rnd):
     rex = tlc.require_ok(tlc.run(env.tmpdir("tlc"), "ExprGen", "Gen_Expr.cfg", ["lang", "lib"], workers=8, timeout=1800), "ExprGen")
-    ec = rex["cases"]
+    ec = [c for c in rex["cases"] if not c.get("sp")]
+    rex["special"] = sorted((c for c in rex["cases"] if c.get("sp")), key=lambda c: json.dumps(c, sort_keys=True))
     ec.sort(key=lambda c: json.dumps(c, sort_keys=True))
     rnd.shuffle(ec)
     if tier == "quick":          # a few cases of every (type, operator) stratum
@@ -62,6 +63,10 @@ def build_programs(env, tier, seed):
             p, lm = progen.expr_program(ch, opaque)
             progs.append((p, "expr%s:%d" % ("" if opaque else "-let", i)))
             meta.append(("expr", ch, lm))
+    for c in rex["special"]:             # one program each: an operand pair on which hardware division traps
+        p, lm = progen.expr_program([c], True)
+        progs.append((p, "solo:%s%s%s" % (c["ty"], c["op"], c["sp"])))
+        meta.append(("solo", c, lm))
     for name, p in corpus.programs():
         progs.append((p, "corpus:" + name))
         meta.append(("corpus", name, None))
@@ -96,6 +101,15 @@ def run(tier, seed, replay=None, target="native", pid="C01"):
     for ob, (kind, a, lm) in zip(obs, meta):
         rep = {"name": ob["name"], "program": ob["text"], "prog": ob["prog"]}
         st = ob["status"]
+        if kind == "solo":             # a tagged operand pair, alone in its program
+            v = ob.get("verdict")
+            if not (st == "ran" and v is not None and v["ok"]):
+                got = ob.get("msg") or ("prints %r, prescribed %r" % (ob.get("out"), v and v["out"]))
+                chk.fail("%s|expr|%s|%s|%s" % (pid, a["ty"], a["op"], a["sp"]),
+                         "%s %s on %d, %d: %s" % (a["ty"], a["op"], progen.case_value(a, "a"), progen.case_value(a, "b"), got), dict(rep, case=a))
+            else:
+                stats["agree"] += 1
+            continue
         if kind == "witness":          # a recorded finding's fixed witness: reported under its own key while it reproduces
             v = ob.get("verdict")
             if not (st == "ran" and v is not None and v["ok"]):
